@@ -56,6 +56,8 @@ var c15Operands = []c15Operand{
 	{"reflect.Value(err1)", reflect.ValueOf(c15e1), c15e1, true, false},
 	{"struct", structT{1, "b", nil}, nil, false, true},
 	{"Stringer", strT{"str"}, nil, false, true},
+	{"panicking Stringer", panStrT{"boom"}, nil, false, true},
+	{"error whose Error panics", panErrT{"eboom"}, panErrT{"eboom"}, false, false},
 }
 
 type sentinel struct {
